@@ -470,6 +470,42 @@ def run(ctx):
                         ctx.fail("C03:%s:spec:large-clone" % k, "%s = %.12g but the FS-CRP statement gives %.12g for a tree whose largest clone holds %d data points" % (k, got[k], exp_[k], size),
                                  {"largest_clone": size, "alpha": str(alpha), "outlier_prob": pname(p), "got": got, "expected": exp_})
 
+    # ---- samples on very different scales: sample s of data point i carries an additive log offset c[i][s] (hundreds of nats
+    # apart between samples, as with samples of very different depth or many mutations per cluster).  The densities shift by
+    # exactly the sum of the offsets of all data points; any normalisation shared ACROSS samples underflows here.
+    from phyclone.data.base import DataPoint as _DP
+    from phyclone.data.pyclone import compute_outlier_prob as _cop
+
+    off_specs = [sp for sp in specs[:n_enum] if len(spec_points(sp)) in (2, 3)]
+    rng.shuffle(off_specs)
+    ns3, g3 = 3, 3
+    ovals = rational_values(rng, 4, ns3, g3)
+    osz = [1] * 4
+    for sp in off_specs[: (25 if ctx.quick else 200)]:
+        offs = [[0.0, -float(rng.choice([150, 400, 800])), -float(rng.choice([900, 1300, 1700]))] for _ in range(4)]
+        p_ = Fraction(1, 10)
+        odata = []
+        for i, v in enumerate(ovals):
+            arr = np.log(np.array([[float(x) for x in row] for row in v], dtype=float)) + np.array(offs[i])[:, None]
+            op, opn = _cop(float(p_), 1)
+            odata.append(_DP(i, arr, outlier_prob=op, outlier_prob_not=opn))
+        t = build_children_first(sp, odata, (ns3, g3))
+        shift = sum(sum(offs[i]) for i in spec_points(sp))
+        for alpha in (Fraction(1), Fraction(5, 2)):
+            ex = exact_values(sp, ovals, alpha, p_, osz)
+            want = [flog(x) for x in ex]
+            prior = FSCRPDistribution(float(alpha))
+            dist = TreeJointDistribution(prior)
+            b = dist.compute_both_log_p_and_log_p_one(t)
+            got = {"log_p": float(dist.log_p(t)), "log_p_one": float(dist.log_p_one(t)), "both[0]": float(b[0]), "both[1]": float(b[1])}
+            exp_ = {"log_p": want[2] + shift, "log_p_one": want[3] + shift, "both[0]": want[2] + shift, "both[1]": want[3] + shift}
+            ctx.case(key=("sample-offsets", sp, str(alpha)), nontrivial=True)
+            ctx.count("sample_offset_cases")
+            for k in got:
+                if not (math.isfinite(got[k]) and close(got[k], exp_[k])):
+                    ctx.fail("C03:%s:spec:sample-offsets" % k, "%s = %.12g but the FS-CRP statement gives %.12g when the samples' log-likelihoods sit %s nats apart" % (k, got[k], exp_[k], sorted({o for row in offs for o in row})),
+                             {"tree": sp, "alpha": str(alpha), "offsets": offs, "got": got, "expected": exp_})
+
     # ---- DataPoint attributes (outlier marginal, outlier prior) against the model
     for p in ps:
         for i, d in enumerate(datas[p]):
